@@ -93,3 +93,30 @@ def rewrite_in_place(f):
     except Exception:  # noqa: BLE001  a read-only array: leave the field alone
         pass
     return f
+
+
+def afterlife(f, salt=0):
+    """Fields DERIVED from f are used the way a user uses them - new labels, values written into their arrays, another
+    validity - before f itself is examined.  None of it may reach f: a result is a field of its own.  (Seeded changes C03-12
+    / C05-11: the vdims setter renamed the mapping dictionary in place, and every derived field holds the operand's
+    dictionary; C03-13: .real returned the operand itself.)  `+f` is not used (documented to return f itself)."""
+    if int(salt) % 3:
+        return f
+    derived = []
+    for make in (lambda: -f, lambda: f.norm, lambda: getattr(f, f.vdims[0]) if (f.vdims and f.nvdim > 1) else abs(f) if f.nvdim == 1 else -f,
+                 lambda: f.conjugate, lambda: f * 2):
+        try:
+            derived.append(make())
+        except Exception:  # noqa: BLE001  (whether an operation exists for this field is not this helper's business)
+            pass
+    for g in derived:
+        if g is f:
+            continue
+        try:
+            if g.nvdim > 1 and g.vdims:
+                g.vdims = [f"d{c}" for c in range(g.nvdim)]
+            g.array[...] = 0
+            g.valid = False
+        except Exception:  # noqa: BLE001
+            pass
+    return f
